@@ -17,7 +17,7 @@ void __CPROVER_assert(int, const char*) noexcept;
 // fold a value into the observation hash compared by the per-run translator differential
 void verif_observe(uint64_t) noexcept;
 // 0 under CBMC, 1 in native replay/differential builds (for contract stubs whose result is unique: solver draws+assumes, native computes)
-int verif_native(void) noexcept;
+uint32_t verif_native(void) noexcept;
 }
 static inline int64_t nondet_i64() { return (int64_t)nondet_u64(); }
 static inline int32_t nondet_i32() { return (int32_t)nondet_u32(); }
